@@ -30,7 +30,7 @@ CONSTANTS
 VARIABLES
     m,        \* the machine: [stack, buf, elems, fields, err, hasState]
     nmsg,     \* sequence of BOOLEAN: message handles created so far, TRUE = dead (End/Build was called on it)
-    nlist,    \* number of list handles created so far
+    nlist,    \* sequence of BOOLEAN: list handles created so far, TRUE = dead (derived from a dead handle)
     hist,     \* the program so far: sequence of [op, ..., exp]
     nodes,    \* number of nodes written
     built,    \* bytes returned by the last successful ROOT build, or <<>>
@@ -284,10 +284,20 @@ MsgHandles == IF Misuse THEN DOMAIN nmsg ELSE IF LiveMsg = {} THEN {} ELSE {CHOO
 UsedTags == IF InMsg THEN {m.fields[i].tag : i \in (Top(m).ts + 1)..Len(m.fields)} ELSE {}
 FreeTags == IF Misuse THEN Tags ELSE Tags \ UsedTags
 
-\* a call through a dead message handle: the specification answers with an error and changes nothing
+\* a call through a dead handle (a message handle after End/Build, or any handle derived from a dead one):
+\* the specification answers with an error and changes nothing
 DeadCall(op) ==
     /\ hist' = Append(hist, op @@ [exp |-> [err |-> m.err, ret |-> "dead"]])
     /\ UNCHANGED <<m, nmsg, nlist, nodes, built, rootTree, done>>
+\* ... except that a handle-returning call hands out another dead handle
+DeadCallNew(op, kind) ==
+    /\ hist' = Append(hist, op @@ [exp |-> [err |-> m.err, ret |-> "dead"]])
+    /\ nmsg' = IF kind = "msg" THEN Append(nmsg, TRUE) ELSE nmsg
+    /\ nlist' = IF kind = "list" THEN Append(nlist, TRUE) ELSE nlist
+    /\ UNCHANGED <<m, nodes, built, rootTree, done>>
+
+LiveList == {l \in DOMAIN nlist : ~nlist[l]}
+ListHandles == IF Misuse THEN DOMAIN nlist ELSE IF LiveList = {} THEN {} ELSE {CHOOSE l \in LiveList : \A g \in LiveList : g <= l}
 
 \* --- root calls on the Writer
 RootMessage ==
@@ -300,7 +310,7 @@ RootMessage ==
 RootList ==
     /\ Budget /\ NodeBudget /\ (Misuse \/ AtStart)
     /\ Step([op |-> "root_list"], BeginList(m), "na")
-    /\ nlist' = nlist + 1
+    /\ nlist' = Append(nlist, FALSE)
     /\ nodes' = nodes + 1
     /\ UNCHANGED <<nmsg, built, rootTree, done>>
 
@@ -337,7 +347,7 @@ FieldAnyOp(h, tag, s) ==
 
 FieldMessage(h, tag) ==
     /\ Budget /\ NodeBudget /\ (Misuse \/ InMsg)
-    /\ IF nmsg[h] THEN DeadCall([op |-> "field_msg", h |-> h, tag |-> tag])
+    /\ IF nmsg[h] THEN DeadCallNew([op |-> "field_msg", h |-> h, tag |-> tag], "msg")
        ELSE /\ Step([op |-> "field_msg", h |-> h, tag |-> tag], BeginMessage(BeginField(m, tag)), "na")
             /\ nmsg' = Append(nmsg, FALSE)
             /\ nodes' = nodes + 1
@@ -345,9 +355,9 @@ FieldMessage(h, tag) ==
 
 FieldList(h, tag) ==
     /\ Budget /\ NodeBudget /\ (Misuse \/ InMsg)
-    /\ IF nmsg[h] THEN DeadCall([op |-> "field_list", h |-> h, tag |-> tag])
+    /\ IF nmsg[h] THEN DeadCallNew([op |-> "field_list", h |-> h, tag |-> tag], "list")
        ELSE /\ Step([op |-> "field_list", h |-> h, tag |-> tag], BeginList(BeginField(m, tag)), "na")
-            /\ nlist' = nlist + 1
+            /\ nlist' = Append(nlist, FALSE)
             /\ nodes' = nodes + 1
             /\ UNCHANGED <<nmsg, built, rootTree, done>>
 
@@ -384,46 +394,53 @@ MsgEnd_(h, build) ==
             /\ UNCHANGED <<nlist, nodes>>
 
 \* --- list handle calls (all list handles are equivalent: they act on the top of the stack)
-ElemScalar(d) ==
-    /\ Budget /\ NodeBudget /\ (Misuse \/ InList) /\ nlist > 0
-    /\ LET w == WriteBytes(m, EncodeScalar(Val(d)), d)
-           r == IF ~w.ok THEN w ELSE Element(w.m)
-       IN Step([op |-> "elem", val |-> d], r.m, RetOf(r.ok))
-    /\ nodes' = nodes + 1
-    /\ UNCHANGED <<nmsg, nlist, built, rootTree, done>>
+ElemScalar(l, d) ==
+    /\ Budget /\ NodeBudget /\ (Misuse \/ InList)
+    /\ IF nlist[l] THEN DeadCall([op |-> "elem", l |-> l, val |-> d])
+       ELSE /\ LET w == WriteBytes(m, EncodeScalar(Val(d)), d)
+                   r == IF ~w.ok THEN w ELSE Element(w.m)
+               IN Step([op |-> "elem", l |-> l, val |-> d], r.m, RetOf(r.ok))
+            /\ nodes' = nodes + 1
+            /\ UNCHANGED <<nmsg, nlist, built, rootTree, done>>
 
-ElemAnyOp(s) ==
-    /\ Budget /\ NodeBudget /\ (Misuse \/ InList) /\ nlist > 0
-    /\ LET b == EncodeT(Val(s))
-           w == WriteBytes(m, b, VRaw(b))
-           r == IF ~w.ok THEN w ELSE Element(w.m)
-       IN Step([op |-> "elem_any", src |-> b], r.m, RetOf(r.ok))
-    /\ nodes' = nodes + 1
-    /\ UNCHANGED <<nmsg, nlist, built, rootTree, done>>
+ElemAnyOp(l, s) ==
+    /\ Budget /\ NodeBudget /\ (Misuse \/ InList)
+    /\ IF nlist[l] THEN DeadCall([op |-> "elem_any", l |-> l, src |-> EncodeT(Val(s))])
+       ELSE /\ LET b == EncodeT(Val(s))
+                   w == WriteBytes(m, b, VRaw(b))
+                   r == IF ~w.ok THEN w ELSE Element(w.m)
+               IN Step([op |-> "elem_any", l |-> l, src |-> b], r.m, RetOf(r.ok))
+            /\ nodes' = nodes + 1
+            /\ UNCHANGED <<nmsg, nlist, built, rootTree, done>>
 
-ElemMessage ==
-    /\ Budget /\ NodeBudget /\ (Misuse \/ InList) /\ nlist > 0
-    /\ Step([op |-> "elem_msg"], BeginMessage(BeginElement(m)), "na")
-    /\ nmsg' = Append(nmsg, FALSE)
-    /\ nodes' = nodes + 1
-    /\ UNCHANGED <<nlist, built, rootTree, done>>
+ElemMessage(l) ==
+    /\ Budget /\ NodeBudget /\ (Misuse \/ InList)
+    /\ IF nlist[l] THEN DeadCallNew([op |-> "elem_msg", l |-> l], "msg")
+       ELSE /\ Step([op |-> "elem_msg", l |-> l], BeginMessage(BeginElement(m)), "na")
+            /\ nmsg' = Append(nmsg, FALSE)
+            /\ nodes' = nodes + 1
+            /\ UNCHANGED <<nlist, built, rootTree, done>>
 
-ElemList ==
-    /\ Budget /\ NodeBudget /\ (Misuse \/ InList) /\ nlist > 0
-    /\ Step([op |-> "elem_list"], BeginList(BeginElement(m)), "na")
-    /\ nlist' = nlist + 1
-    /\ nodes' = nodes + 1
-    /\ UNCHANGED <<nmsg, built, rootTree, done>>
+ElemList(l) ==
+    /\ Budget /\ NodeBudget /\ (Misuse \/ InList)
+    /\ IF nlist[l] THEN DeadCallNew([op |-> "elem_list", l |-> l], "list")
+       ELSE /\ Step([op |-> "elem_list", l |-> l], BeginList(BeginElement(m)), "na")
+            /\ nlist' = Append(nlist, FALSE)
+            /\ nodes' = nodes + 1
+            /\ UNCHANGED <<nmsg, built, rootTree, done>>
 
-ListEnd_(build) ==
-    /\ Budget /\ (Misuse \/ InList) /\ nlist > 0
-    /\ FinishVia([op |-> IF build THEN "list_build" ELSE "list_end"], End(m))
-    /\ UNCHANGED <<nmsg, nlist, nodes>>
+ListEnd_(l, build) ==
+    /\ Budget /\ (Misuse \/ InList)
+    /\ LET op == [op |-> IF build THEN "list_build" ELSE "list_end", l |-> l] IN
+       IF nlist[l] THEN DeadCall(op)
+       ELSE /\ FinishVia(op, End(m))
+            /\ UNCHANGED <<nmsg, nlist, nodes>>
 
-ListLenOp ==
-    /\ Budget /\ Misuse /\ nlist > 0
-    /\ Step([op |-> "list_len", len |-> ListLenM(m)], m, "na")
-    /\ UNCHANGED <<nmsg, nlist, nodes, built, rootTree, done>>
+ListLenOp(l) ==
+    /\ Budget /\ Misuse
+    /\ IF nlist[l] THEN DeadCall([op |-> "list_len", l |-> l])
+       ELSE /\ Step([op |-> "list_len", l |-> l, len |-> ListLenM(m)], m, "na")
+            /\ UNCHANGED <<nmsg, nlist, nodes, built, rootTree, done>>
 
 \* --- value handle (always obtainable from the writer)
 ValueBuild ==
@@ -451,9 +468,9 @@ RepeatElem(mm, v, n) ==
              r == IF ~w.ok THEN w ELSE Element(w.m)
          IN IF ~r.ok THEN r ELSE RepeatElem(r.m, v, n - 1)
 
-ElemRepeat(d, n) ==
-    /\ Budget /\ InList /\ nlist > 0 /\ ~Misuse
-    /\ LET r == RepeatElem(m, d, n) IN Step([op |-> "elem_repeat", val |-> d, n |-> n], r.m, RetOf(r.ok))
+ElemRepeat(l, d, n) ==
+    /\ Budget /\ InList /\ ~nlist[l] /\ ~Misuse
+    /\ LET r == RepeatElem(m, d, n) IN Step([op |-> "elem_repeat", l |-> l, val |-> d, n |-> n], r.m, RetOf(r.ok))
     /\ nodes' = nodes + 1
     /\ UNCHANGED <<nmsg, nlist, built, rootTree, done>>
 
@@ -488,12 +505,12 @@ Nest(h, d, n) ==
     /\ UNCHANGED <<nmsg, nlist, built, rootTree, done>>
 
 MacroStep ==
-    \/ \E mc \in Macros : mc.op = "elem_repeat" /\ ElemRepeat(mc.val, mc.n)
+    \/ \E mc \in Macros : \E l \in ListHandles : mc.op = "elem_repeat" /\ ElemRepeat(l, mc.val, mc.n)
     \/ \E mc \in Macros : \E h \in MsgHandles : mc.op = "field_repeat" /\ FieldRepeat(h, mc.val, mc.tag, mc.n)
     \/ \E mc \in Macros : \E h \in MsgHandles : mc.op = "nest" /\ Nest(h, mc.val, mc.n)
 
 Init ==
-    /\ m = Fresh /\ nmsg = <<>> /\ nlist = 0 /\ hist = <<>> /\ nodes = 0
+    /\ m = Fresh /\ nmsg = <<>> /\ nlist = <<>> /\ hist = <<>> /\ nodes = 0
     /\ built = <<>> /\ rootTree = VNone /\ done = FALSE
 
 Next ==
@@ -507,9 +524,10 @@ Next ==
                                 \/ HasFieldOp(h, t)
          \/ \E s \in {s \in Srcs : Val(s).k = "msg"} : CopyOp(h, s)
          \/ MsgEnd_(h, TRUE) \/ (Misuse /\ MsgEnd_(h, FALSE))
-    \/ \E d \in Descs : ElemScalar(d)
-    \/ \E s \in Srcs : ElemAnyOp(s)
-    \/ ElemMessage \/ ElemList \/ ListEnd_(TRUE) \/ (Misuse /\ ListEnd_(FALSE)) \/ ListLenOp
+    \/ \E l \in ListHandles :
+         \/ \E d \in Descs : ElemScalar(l, d)
+         \/ \E s \in Srcs : ElemAnyOp(l, s)
+         \/ ElemMessage(l) \/ ElemList(l) \/ ListEnd_(l, TRUE) \/ (Misuse /\ ListEnd_(l, FALSE)) \/ ListLenOp(l)
     \/ ValueBuild
     \/ ResetOp \/ FreeOp
     \/ MacroStep
